@@ -84,6 +84,7 @@ type backend struct {
 	up      bool
 	held    []*probe
 	accepts int      // connections accepted (diagnostics)
+	probes  int      // health probes received
 	lines   []string // first lines read (diagnostics)
 }
 
@@ -182,6 +183,7 @@ func (b *backend) handle(c net.Conn) {
 	b.mu.Unlock()
 	if line == "HCPING" {
 		b.mu.Lock()
+		b.probes++
 		b.held = append(b.held, &probe{c: c})
 		b.mu.Unlock()
 		return
@@ -275,6 +277,13 @@ func (fx *fixture) relayOf(id int) *relay {
 	fx.mu.Lock()
 	defer fx.mu.Unlock()
 	return fx.byID[id]
+}
+
+// probeCount returns the number of health probes (HCPING) that have reached the backend.
+func (b *backend) probeCount() int {
+	b.mu.Lock()
+	defer b.mu.Unlock()
+	return b.probes
 }
 
 func (b *backend) heldCount() int {
